@@ -22,6 +22,7 @@ import (
 	"github.com/dominant-strategies/go-quai/core/rawdb"
 	"github.com/dominant-strategies/go-quai/core/state"
 	"github.com/dominant-strategies/go-quai/core/types"
+	"github.com/dominant-strategies/go-quai/core/vm"
 	"github.com/dominant-strategies/go-quai/crypto"
 	"github.com/dominant-strategies/go-quai/crypto/multiset"
 	"github.com/dominant-strategies/go-quai/ethdb"
@@ -76,7 +77,13 @@ func (n *VNode) ChainID() *big.Int { return n.Sl[2].config.ChainID }
 func (n *VNode) Signer() types.Signer { return types.NewSigner(n.ChainID(), VZoneLoc) }
 
 func (n *VNode) QuaiTx(k *VKey, nonce uint64, to *common.Address, value *big.Int, gas uint64, price *big.Int, data []byte) *types.Transaction {
-	inner := &types.QuaiTx{ChainID: n.ChainID(), Nonce: nonce, GasPrice: price, Gas: gas, To: to, Value: value, Data: data}
+	return n.QuaiTxAL(k, nonce, to, value, gas, price, data, nil)
+}
+
+// QuaiTxAL: like QuaiTx with an access list (contract creation requires the address of the new
+// contract to be listed).
+func (n *VNode) QuaiTxAL(k *VKey, nonce uint64, to *common.Address, value *big.Int, gas uint64, price *big.Int, data []byte, al types.AccessList) *types.Transaction {
+	inner := &types.QuaiTx{ChainID: n.ChainID(), Nonce: nonce, GasPrice: price, Gas: gas, To: to, Value: value, Data: data, AccessList: al}
 	tx, err := types.SignTx(types.NewTx(inner), n.Signer(), k.Priv)
 	if err != nil {
 		panic("harness: sign: " + err.Error())
@@ -637,4 +644,21 @@ func (n *VNode) VProcessFingerprintWithDeletes(blk *types.WorkObject) (string, e
 	rs := types.DeriveSha(receipts, trie.NewStackTrie(nil))
 	es := types.DeriveSha(types.Transactions(etxs), trie.NewStackTrie(nil))
 	return fmt.Sprintf("receiptRoot=%x etxRoot=%x gas=%d state=%d setSize=%d muhash=%x evm=%x %v", rs[:6], es[:6], usedGas, usedState, utxoSetSize, multiSet.Hash().Bytes()[:8], statedb.IntermediateRoot(true).Bytes()[:6], dels), nil
+}
+
+// VLockupPrecompile: address of the lockup contract of zone 0-0.
+func VLockupPrecompile() common.Address {
+	return vm.LockupContractAddresses[[2]byte{VZoneLoc[0], VZoneLoc[1]}]
+}
+
+func (n *VNode) VCode(a common.Address) []byte {
+	st, err := n.VStateAt(n.Heads[2])
+	if err != nil {
+		return nil
+	}
+	ia, err := a.InternalAddress()
+	if err != nil {
+		return nil
+	}
+	return st.GetCode(ia)
 }
